@@ -113,6 +113,10 @@ pub fn build(
         return Ok(None);
     };
 
+    if definition.statements.is_empty() {
+        anyhow::bail!("enum `{resolvee_path}` has no variants");
+    }
+
     let mut fields: Vec<(String, isize)> = vec![];
     // `None` once the previous value was `isize::MAX`: there is no implicit successor
     let mut last_field = Some(0isize);
